@@ -34,6 +34,8 @@ type CacheDeco struct {
 	FaultAt   int    // -1 = none
 	FaultKind string // "error" | "empty" | "panic"
 	Fired     bool
+	// SlowDelay: how long a call hit by fault kind "slow" is held before it proceeds normally
+	SlowDelay time.Duration
 	// gate: if non-nil every Modify parks here until released
 	Gate func(ctx context.Context, call CacheCall)
 	PruneCreated, PruneApplied int
@@ -106,6 +108,8 @@ func (d *CacheDeco) Modify(ctx context.Context, name string, opts *cache.Opts, d
 		return ErrCacheInjected
 	case "panic":
 		panic(CrashSentinel{At: call.String()})
+	case "slow":
+		time.Sleep(d.SlowDelay)
 	}
 	if g := d.Gate; g != nil {
 		g(ctx, call)
@@ -141,6 +145,8 @@ func (d *CacheDeco) Read(ctx context.Context, name string, opts *cache.Opts, pat
 		return nil
 	case "panic":
 		panic(CrashSentinel{At: call.String()})
+	case "slow":
+		time.Sleep(d.SlowDelay)
 	}
 	return d.Client.Read(ctx, name, opts, paths, period)
 }
@@ -154,6 +160,8 @@ func (d *CacheDeco) ReadCh(ctx context.Context, name string, opts *cache.Opts, p
 		return ch
 	case "panic":
 		panic(CrashSentinel{At: call.String()})
+	case "slow":
+		time.Sleep(d.SlowDelay)
 	}
 	in := d.Client.ReadCh(ctx, name, opts, paths, period)
 	hook := d.OnReadChEnd
@@ -189,6 +197,8 @@ func (d *CacheDeco) GetKeys(ctx context.Context, name string, store cachepb.Stor
 		return nil, ErrCacheInjected
 	case "panic":
 		panic(CrashSentinel{At: call.String()})
+	case "slow":
+		time.Sleep(d.SlowDelay)
 	}
 	return d.Client.GetKeys(ctx, name, store)
 }
